@@ -1,6 +1,11 @@
-"""PROTOTYPE C04: --dry-run touches nothing under the target and predicts the real run (single codemod)."""
+"""C04: --dry-run touches nothing under the target and predicts the real run (single codemod).
+
+Monitors: H-fs (sys.addaudithook: every open-for-write / remove / rename / mkdir / chmod / utime ... with its path, while run() executes),
+tree snapshots with content AND (mode, mtime_ns, size) before/after, H-rep; a sample of dry runs is repeated as the unmodified console
+script under strace (H-sys), which also sees semgrep's child processes. Oracle: no mutation event under the target, snapshots equal,
+normalised dry report == normalised real report of the same project."""
 import base64, collections, copy, hashlib, json, os, random, sys
-from vf import corpus
+from vf import corpus, blackbox as BB
 from vf.checks import c03
 from vf.runner import run_check, Violation
 b64 = lambda b: base64.b64encode(b).decode()
@@ -21,14 +26,42 @@ def plan(tier, seed):
             extra = rnd.choice(([], ["--verbose"], ["--max-workers", "4"], ["--path-include", "*.py"]))
             for dry in (True, False):
                 jobs.append({"id": f"{cid}|{hashlib.sha1(r['input'].encode()).hexdigest()[:8]}|{m}|{'dry' if dry else 'real'}", "pair": f"{cid}|{i}", "cid": cid, "dry": dry, "files": files,
-                             "argv": ["{proj}", "--output", "{out}", "--codemod-include", cid] + extra + (["--dry-run"] if dry else []), "monitors": {"snap": False, "fs": True}, "want_before": True})
+                             "argv": ["{proj}", "--output", "{out}", "--codemod-include", cid] + extra + (["--dry-run"] if dry else []), "monitors": {"snap": False, "fs": True}, "want_before": True, "want_stat": True})
     for mkey in mk:
         for cid, src in c03.DEP_CODEMODS.items():
             files = {"app.py": b64(src.encode())}; files.update({k: b64(v) for k, v in c03.MANIFESTS[mkey].items()})
             for dry in (True, False):
                 jobs.append({"id": f"dep|{cid}|{mkey}|{'dry' if dry else 'real'}", "pair": f"dep|{cid}|{mkey}", "cid": cid, "dry": dry, "files": files,
-                             "argv": ["{proj}", "--output", "{out}", "--codemod-include", cid] + (["--dry-run"] if dry else []), "monitors": {"snap": False, "fs": True}, "want_before": True})
+                             "argv": ["{proj}", "--output", "{out}", "--codemod-include", cid] + (["--dry-run"] if dry else []), "monitors": {"snap": False, "fs": True}, "want_before": True, "want_stat": True})
+    # SAST-driven codemods with their tool result files
+    from vf.checks import grid
+    for k, j in enumerate(grid.sast_jobs("quick", seed)):
+        if tier == "quick" and k % 3 != seed % 3: continue
+        for dry in (True, False):
+            jobs.append({"id": j["id"] + ("|dry" if dry else "|real"), "pair": "sast|" + j["id"], "cid": j["cid"], "dry": dry, "files": j["files"], "result_files": j["result_files"],
+                         "argv": j["argv"] + (["--dry-run"] if dry else []), "monitors": {"snap": False, "fs": True}, "want_before": True, "want_stat": True})
     return jobs
+
+STRACE = []
+def strace_runs(tier, seed):
+    """H-sys: the unmodified console script under strace -f; semgrep children and anything below Python are seen"""
+    rnd = random.Random(f"C04-strace:{seed}")
+    cases = [("pixee:python/use-defusedxml", "import xml.sax\nxml.sax.parse('f')\n", "req_lf"), ("pixee:python/requests-verify", "import requests\nrequests.get('u', verify=False)\n", "setup_py"),
+             ("pixee:python/harden-pickle-load", "import pickle\npickle.load(open('f','rb'))\n", "pyproject"), ("pixee:python/secure-random", "import random\nrandom.random()\n", "setup_cfg"),
+             ("pixee:python/url-sandbox", "import requests\nfrom flask import request\ndef v():\n    requests.get(request.args['u'])\n", "req_nonl"), ("pixee:python/use-set-literal", "x = set([1])\n", "poetry")]
+    if tier == "quick": cases = rnd.sample(cases, 3)
+    else: cases = cases * 4
+    def one(c):
+        cid, src, mk = c
+        files = {"code.py": src.encode(), "pkg/mod.py": src.encode()}; files.update(c03.MANIFESTS[mk])
+        r = BB.run_cli(["{proj}", "--dry-run", "--output", "{dir}/out.json", "--codemod-include", cid], files=files, strace=True, timeout=600)
+        ev, n = BB.strace_mutations(os.path.join(r["dir"], "strace.out"), os.path.join(r["dir"], "proj"), r["dir"])
+        rep = None
+        try: rep = json.load(open(os.path.join(r["dir"], "out.json")))
+        except Exception: pass
+        import shutil; shutil.rmtree(r["dir"], ignore_errors=True)
+        return {"cid": cid, "manifest": mk, "rc": r.get("rc"), "events": ev, "n_syscalls": n, "changesets": sum(len(x["changeset"]) for x in (rep or {}).get("results", []))}
+    return BB.pmap(one, cases, workers=6)
 
 _pairs = {}
 def norm(rep, proj):
@@ -46,6 +79,9 @@ def judge(job, res):
         if run["tree"] != run["before_tree"]:
             diff = sorted(k for k in set(run["tree"]) | set(run["before_tree"]) if run["tree"].get(k) != run["before_tree"].get(k))
             v.append(Violation("C04", f"dry-run-wrote/{os.path.splitext(diff[0])[1] or diff[0]}", f"--dry-run changed {diff}", {"codemod": job["cid"], "argv": job["argv"], "changed": diff}))
+        elif run.get("stat") is not None and run.get("before_stat") is not None and run["stat"] != run["before_stat"]:
+            diff = sorted(k for k in set(run["stat"]) | set(run["before_stat"]) if run["stat"].get(k) != run["before_stat"].get(k))
+            v.append(Violation("C04", "dry-run-touched-metadata", f"--dry-run changed mode/mtime/size of {diff}", {"codemod": job["cid"], "argv": job["argv"], "changed": diff}))
         for e in run["trace"]:
             if e["k"] == "fs":
                 p = e["path"] if isinstance(e["path"], str) else e["path"][0]
@@ -60,8 +96,20 @@ def judge(job, res):
             v.append(Violation("C04", f"dry-report-differs/{cm}", "dry-run report differs from the real run's", {"codemod": job["cid"], "dry": rd[:1500], "real": rr[:1500]}))
     return v, st, nt
 
+def finalize(stats, counters):
+    tier, seed = __import__("vf.runner", fromlist=["tier_seed"]).tier_seed()
+    out = []; res = strace_runs(tier, seed); seen = 0; syscalls = 0; with_changes = 0
+    for r in res:
+        if r["events"] is None or r["rc"] != 0: continue
+        seen += 1; syscalls += r["n_syscalls"]; with_changes += 1 if r["changesets"] else 0
+        for e in r["events"][:3]:
+            out.append(Violation("C04", f"dry-run-syscall/{e['syscall']}", f"{e['syscall']} on {e['path']} during --dry-run of {r['cid']} (strace)", {"codemod": r["cid"], "manifest": r["manifest"], "event": e}))
+    extra = {"strace_runs": seen, "strace_mutation_syscalls_examined": syscalls, "strace_runs_whose_dry_report_had_changesets": with_changes}
+    return out, extra, {"strace dry runs observed": seen, "mutation-class syscalls seen by strace (anywhere)": syscalls}
+
 def main():
-    return run_check("C04", "exploration", plan, judge, "dry/real pairs over codemods x manifests x options with audit-hook fs monitor and tree snapshots; non-trivial = the paired real run changed the tree", 40, deciding_counters=("_apply",), timeout=300, module=__name__)
+    return run_check("C04", "exploration", plan, judge, "dry/real pairs over every pixee codemod x manifest kinds (incl. CRLF / non-UTF-8 / BOM) x options, dependency-adding codemods x every manifest, SAST codemods with result files; audit-hook fs monitor + content and (mode, mtime, size) snapshots; plus dry runs of the console script under strace -f; non-trivial = the paired real run changed the tree; distinct by pair",
+                     40, deciding_counters=("_apply",), timeout=300, module=__name__, finalize=finalize)
 
 if __name__ == "__main__":
     sys.exit(main())
